@@ -8,7 +8,7 @@ the old buffer: `at_line_start()`, `get_endtag_text()` and the blank-line look-a
 Symptoms on the unchanged tree (region "two-phase"): end tags re-spelt from unrelated text (`'\\n<a f="\\n></c>\\nbklzz>'`
 -> `</c>` becomes `klzz>`), raw blocks detected / missed at wrong places.
 `two_phase(md, text)` is True iff the rest is non-empty, is not the whole document, and contains a further `<`
-after its first character (only then a position is ever read in the second pass).
+after its first character (only then a position is ever read in the second pass; after a consumed `&#` the first character counts too).
 Returns None if the extractor raises (F-C02-1).
 """
 from markdown.htmlparser import HTMLExtractor
@@ -23,8 +23,8 @@ def normalised_source(md, text):
     return '\n'.join(lines)
 
 
-def first_pass_rest(md, text):
-    """md: a Markdown instance used ONLY for this purpose (its stash is reset)."""
+def _first_pass(md, text):
+    """-> (rest, normalised source) or None if the extractor raises"""
     md.reset()
     try:
         src = normalised_source(md, text)
@@ -35,11 +35,23 @@ def first_pass_rest(md, text):
         md.reset()
         return None
     md.reset()
-    return rest, len(src)
+    return rest, src
+
+
+def first_pass_rest(md, text):
+    """md: a Markdown instance used ONLY for this purpose (its stash is reset)."""
+    r = _first_pass(md, text)
+    return None if r is None else (r[0], len(r[1]))
 
 
 def two_phase(md, text):
-    r = first_pass_rest(md, text)
+    r = _first_pass(md, text)
     if r is None: return None
-    rest, n = r
-    return bool(rest) and len(rest) < n and '<' in rest[1:]
+    rest, src = r
+    if not rest or len(rest) >= len(src): return False
+    # The rest normally BEGINS with the incomplete construct (its own `<` is plain text in the second pass): only a further `<` matters.
+    # One construct is different: a `&#` that is not a character reference but has a `;` somewhere later is consumed ("bail by consuming
+    # &#") and the first pass stops right AFTER it -- then the rest begins with ordinary text and its first character counts as well
+    # (`    &#</ x>;` -> the end tag is re-spelt `</x>`).
+    head = src[:len(src) - len(rest)] if src.endswith(rest) else ''
+    return '<' in (rest if head.endswith('&#') else rest[1:])
